@@ -195,6 +195,13 @@ def case_tree(rng: Any, ctx: Ctx, index: int) -> None:
         trace.append(op)
     LOG.case_key('tree:' + '>'.join(trace) + ':' + struct_kind(s), len(trace) > 1)
     LOG.sample({'ops': trace, 'result': dense.describe(cur)})
+    # the final expression applied to a vector: every scalar factor met on the way is judged leaf by leaf, each leaf in its own
+    # precision (reference model of the scalar operator; pytrees of mixed dtypes)
+    if 'InverseOperator' not in dense.class_names(cur):
+        try:
+            cur.mv(gen.rand_input(rng, cur.in_structure()))
+        except Exception as exc:  # noqa: BLE001
+            LOG.count('C02.driver', f'final-apply-raised:{type(exc).__name__}')
 
 
 def alter(rng: Any, s: Any) -> tuple[str, Any]:
@@ -329,6 +336,6 @@ def case_reject(rng: Any, ctx: Ctx, index: int) -> None:
 
 
 def run(ctx: Ctx) -> None:
-    enable('arith')
+    enable('arith', 'mvref')
     drive(ctx, case_tree, 2000, 20000, stream=0, part='tree')
     drive(ctx, case_reject, 1500, 15000, stream=1, part='reject')
